@@ -127,7 +127,7 @@ impl Property for C16 {
         "C16"
     }
     fn rule(&self) -> &'static str {
-        "proptest single cases: app (the shipped example / a minimal harness app that calls the interface's validate_message helper and aborts on error) x delivery (chain, id, source address from small pools incl. empty strings; payload 0..600 bytes) x at most one deviation (never approved; approved for another app / for the account-kind address with the app's 32 bytes / another payload / source address / id / chain; delivered twice; additionally approved for the other app; approval re-submitted, or the id re-approved with other content, after delivery; approved under another split of the same characters between chain and id, for 8 separators; approval and delivery differing only in letter case or a trailing space of chain / id / source address, in either direction) x 0..150 days passing between approval and delivery and between the first delivery and whatever is tried afterwards, optionally with a signer rotation (ordinary or operator-bypass) after the first delivery, later approvals being signed by the new set (ledger sequence and clock advanced; temporary entries of that age are gone). All 2x32 app x deviation combinations are also enumerated as fixed cases. Oracle: the app's effect (its executed event / counter) and the gateway's transition to executed happen iff the gateway held a matching unexecuted approval naming this app; otherwise the delivery fails, nothing is emitted and the ledger snapshot is identical. non-trivial = a deviation is present; distinct by Debug hash"
+        "proptest single cases: app (the shipped example / a minimal harness app that calls the interface's validate_message helper and aborts on error) x delivery (chain, id, source address from small pools incl. empty strings; payload 0..600 bytes) x at most one deviation (never approved; approved for another app / for the account-kind address with the app's 32 bytes / another payload / source address / id / chain; delivered twice; additionally approved for the other app; approval re-submitted, or the id re-approved with other content, after delivery; approved under another split of the same characters between chain and id, for 8 separators; approval and delivery differing only in letter case or a trailing space of chain / id / source address, in either direction) x 0..150 days passing between approval and delivery and between the first delivery and whatever is tried afterwards, optionally with a signer rotation (ordinary or operator-bypass) after the first delivery, later approvals being signed by the new set, and optionally with a third party calling the gateway's validate_message for the delivered id in between (ledger sequence and clock advanced; temporary entries of that age are gone). All 2x32 app x deviation combinations are also enumerated as fixed cases. Oracle: the app's effect (its executed event / counter) and the gateway's transition to executed happen iff the gateway held a matching unexecuted approval naming this app; otherwise the delivery fails, nothing is emitted and the ledger snapshot is identical. non-trivial = a deviation is present; distinct by Debug hash"
     }
     fn fixed_is_exhaustive(&self) -> Option<&'static str> {
         Some("app x deviation matrix (2 x 32) enumerated completely with one fixed delivery; deliveries sampled")
@@ -276,6 +276,15 @@ impl Property for C16 {
                 env.set_auths(&[]);
                 set = next;
                 cx.label(if case.rotation_after % 3 == 2 { "bypass_rotation_after_delivery" } else { "rotation_after_delivery" });
+            }
+            if case.seed % 3 == 0 {
+                // a third party asks the gateway to consume the same id for itself (a public entry point): it gets
+                // `false`, and that must be all
+                env.mock_all_auths();
+                let r = gw.client.try_validate_message(&stranger, &sstr(&env, chain), &sstr(&env, id), &sstr(&env, src), &BytesN::from_array(&env, &keccak256(&payload)));
+                env.set_auths(&[]);
+                ensure_p!(!matches!(r, Ok(Ok(true))), "the gateway let a third party consume a message approved for the app");
+                cx.label("third_party_validate_message_after_delivery");
             }
             let snap1 = snapshot(&env);
             let ev1 = events_len(&env);
